@@ -103,7 +103,7 @@ func withdrawOnNormalForms(c *Ctx, fs *formSet, verbose bool) {
 	}
 	attempted := map[string]int{}
 	for _, o := range c.Obls {
-		if o.Verdict != Noted && !((o.Verdict == Violated || o.Verdict == Undecided) && known[o.Key()]) {
+		if o.Verdict == Discharged {
 			attempted[o.Rule]++
 		}
 	}
@@ -184,8 +184,8 @@ func withdrawOnNormalForms(c *Ctx, fs *formSet, verbose bool) {
 					}
 				}
 			}
-			// the form must decide at least as much as the rule attempted on the source: a form on which the rule's
-			// anchors vanished (a helper the rule looks for by its call was inlined) proves nothing
+			// the form must discharge at least as many obligations as the rule discharged on the source: a form on which
+			// the rule's anchors vanished (a helper the rule looks for by its call was inlined) proves nothing
 			if bad > 0 || good == 0 || good < attempted[r.ID] {
 				continue
 			}
